@@ -155,6 +155,14 @@ class Sim:
         self.w = self.w + ow
         self.v = self.v + ov
 
+    def setvalue(self, how, par):
+        if how == 'scale':
+            self.v = [F(par) * y for y in self.v]
+        elif how == 'shift':
+            self.v = [y + F(par) for y in self.v]
+        elif how == 'reverse':
+            self.v = self.v[::-1]
+
     def resample(self, g):
         if not self.w:
             return
@@ -213,8 +221,46 @@ def rnd_point(rng, w, wide=True):
     return w[-1] + F(rng.randint(0, 6), 4)
 
 
+def gen_query(rng, sim, pool):
+    """integrate / bin / value assignment / value-unit conversion as a step of a session; bounds and centres are
+    re-used from the pool so that the same query is asked again after the object has changed"""
+    w = sim.w
+    t = rng.random()
+    if t < 0.42:
+        qs = [q for q in pool if q['k'] == 'integrate']
+        if qs and rng.random() < 0.6:
+            return dict(rng.choice(qs))
+        a = None if rng.random() < 0.25 else str(rnd_point(rng, w))
+        b = None if rng.random() < 0.25 else str(rnd_point(rng, w))
+        if a is not None and b is not None and F(a) > F(b) and rng.random() < 0.9:
+            a, b = b, a
+        q = {'k': 'integrate', 'a': a, 'b': b, 'rule': 'trapz' if rng.random() < 0.6 else 'simps', 'form': rng.randrange(3)}
+        pool.append(q)
+        return dict(q)
+    if t < 0.65:
+        qs = [q for q in pool if q['k'] == 'bin']
+        if qs and rng.random() < 0.6:
+            return dict(rng.choice(qs))
+        c = rnd_grid(rng, rng.randint(2, 5), start=rnd_point(rng, w, wide=False), uniform=rng.random() < 0.5)
+        c = [x if x > 0 else F(1, 4) for x in c]
+        q = {'k': 'bin', 'c': fs(c), 'rule': 'trapz' if rng.random() < 0.55 else 'simps',
+             'ends': 'symmetric' if rng.random() < 0.5 else 'inside', 'pp': rng.random() < 0.65, 'form': rng.randrange(2)}
+        pool.append(q)
+        return dict(q)
+    if t < 0.93 or not sim.vu:
+        u = rng.random()
+        if u < 0.5:
+            return {'k': 'setvalue', 'how': 'scale', 'par': str(rng.choice([F(2), F(3), F(1, 2), F(-1), F(4), F(3, 2)]))}
+        if u < 0.8:
+            return {'k': 'setvalue', 'how': 'shift', 'par': str(F(rng.randint(-2, 3)))}
+        return {'k': 'setvalue', 'how': 'reverse', 'par': None}
+    return {'k': 'to', 'unit': rng.choice([x for x in ('photlam', 'flam', 'wlam') if x != sim.vu])}
+
+
 def gen_op(rng, sim, budget):
     w, v = sim.w, sim.v
+    if rng.random() < sim.qrate:
+        return gen_query(rng, sim, sim.pool)
     t = rng.random()
     if t < 0.22:
         a, b = rnd_point(rng, w), rnd_point(rng, w)
@@ -250,7 +296,8 @@ def gen_op(rng, sim, budget):
         u = rng.random()
         mode = 'default' if u < 0.4 else 'edge' if u < 0.6 else ['scalar', str(F(rng.randint(0, 5)))] if u < 0.75 \
             else ['const', str(F(rng.randint(0, 5))), str(F(rng.randint(-1, 5)))]
-        return {'k': 'pad', 'e0': str(e0), 'e1': str(e1), 'samp': None if samp is None else str(samp), 'mode': mode}
+        return {'k': 'pad', 'e0': str(e0), 'e1': str(e1), 'samp': None if samp is None else str(samp), 'mode': mode,
+                'form': rng.randrange(3)}
     if t < 0.8:
         u = rng.random()
         n = len(w) if u < 0.45 else 1 if u < 0.8 else rng.randint(0, 4)
@@ -305,11 +352,48 @@ def apply_sim(sim, o):
             sim.append([F(x) for x in o['w']], [F(x) for x in o['v']])
     elif k == 'resample':
         sim.resample([F(x) for x in o['g']])
+    elif k == 'setvalue':
+        sim.setvalue(o['how'], o['par'])
+    elif k == 'to':
+        sim.vu = o['unit']
+
+
+def all_int(xs):
+    return all(F(x).denominator == 1 for x in xs)
+
+
+def gen_history(rng):
+    """2-4 calls on one object with ONE thing varied: the same query before and after new values on the same grid"""
+    w, v = rnd_spectrum(rng, nmax=9)
+    while len(w) < 3:
+        w, v = rnd_spectrum(rng, nmax=9)
+    vu = 'photlam' if rng.random() < 0.25 else None
+    sim = Sim(w, v, vu)
+    q = gen_query(rng, sim, [])
+    while q['k'] not in ('integrate', 'bin'):
+        q = gen_query(rng, sim, [])
+    if q['k'] == 'bin':
+        q['pp'] = rng.random() < 0.8
+    ch = gen_query(rng, sim, [])
+    while ch['k'] not in ('setvalue', 'to'):
+        ch = gen_query(rng, sim, [])
+    ops = [dict(q), ch, dict(q)]
+    if rng.random() < 0.4:
+        ops = ops + [{'k': 'setvalue', 'how': 'scale', 'par': '3'}, dict(q)]
+    if rng.random() < 0.3:
+        ops = [dict(q)] + ops
+    c = {'op': 'seq', 'w': fs(w), 'v': fs(v), 'ops': ops}
+    if vu:
+        c['vu'] = vu
+    elif all_int(c['w'] + c['v']) and rng.random() < 0.3:
+        c['dtype'] = 'int'
+    return c
 
 
 def gen_seq(rng, maxlen):
     w, v = rnd_spectrum(rng)
-    sim = Sim(w, v)
+    vu = 'photlam' if rng.random() < 0.12 else None
+    sim = Sim(w, v, vu, qrate=rng.choice([0.0, 0.25, 0.4]))
     ops = []
     budget = 3
     n = rng.randint(1, maxlen)
@@ -321,7 +405,12 @@ def gen_seq(rng, maxlen):
         apply_sim(sim, o)
         if o.get('copy'):
             break       # the copy is compared with the model's outcome; the object itself does not move
-    return {'op': 'seq', 'w': fs(w), 'v': fs(v), 'ops': ops}
+    c = {'op': 'seq', 'w': fs(w), 'v': fs(v), 'ops': ops}
+    if vu:
+        c['vu'] = vu
+    elif all_int(c['w'] + c['v']) and rng.random() < 0.15:
+        c['dtype'] = 'int'        # integer-typed wave/value arrays must behave like the float ones
+    return c
 
 
 def gen_integrate(rng):
@@ -383,6 +472,8 @@ def generate(rng, tier):
     nseq, maxlen = (450, 8) if quick else (12000, 25)
     for _ in range(nseq):
         yield gen_seq(rng, maxlen)
+    for _ in range(200 if quick else 3000):
+        yield gen_history(rng)
     for _ in range(350 if quick else 10000):
         yield gen_integrate(rng)
     for _ in range(400 if quick else 12000):
@@ -395,7 +486,8 @@ def generate(rng, tier):
 
 def classify(c):
     if c['op'] == 'seq':
-        return 'seq<=4' if len(c['ops']) <= 4 else 'seq<=8' if len(c['ops']) <= 8 else 'seq>8'
+        q = 'session' if any(o['k'] in ('integrate', 'bin', 'setvalue', 'to') for o in c['ops']) else 'seq'
+        return f'{q}<=4' if len(c['ops']) <= 4 else f'{q}<=8' if len(c['ops']) <= 8 else f'{q}>8'
     if c['op'] == 'bin':
         return f"bin/{c['rule']}/{c['ends']}/{'pp' if c['pp'] else 'raw'}"
     if c['op'] == 'integrate':
@@ -418,6 +510,20 @@ def nontrivial(c):
 
 
 # ------------------------------------------------------------------ model side
+RULES = {'trapz': 0, 'simps': 1}
+ENDS = {'symmetric': 0, 'inside': 1}
+_IMPL = {}
+
+
+def run_impl_cached(c):
+    h = C.case_hash({k: v for k, v in c.items() if not k.startswith('_')})
+    if h not in _IMPL:
+        if len(_IMPL) > 20000:
+            _IMPL.clear()
+        _IMPL[h] = run_impl_raw(c)
+    return _IMPL[h]
+
+
 def enc_lq(xs):
     return C.enc_list([F(x) for x in xs], C.enc_q)
 
@@ -443,17 +549,32 @@ def enc_op(o):
         return [4] + enc_lq(o['w']) + enc_lq(o['v'])
     if k == 'resample':
         return [5] + enc_lq(o['g'])
+    if k == 'integrate':
+        q = lambda x: C.enc_opt(None if x is None else F(x), C.enc_q)
+        return [7] + q(o['a']) + q(o['b']) + [RULES[o['rule']]]
+    if k == 'bin':
+        return [8] + enc_lq(o['c']) + [RULES[o['rule']], ENDS[o['ends']], 1 if o['pp'] else 0]
     raise ValueError(k)
 
 
-RULES = {'trapz': 0, 'simps': 1}
-ENDS = {'symmetric': 0, 'inside': 1}
 
 
 def encode(c):
     op = c['op']
     if op == 'seq':
-        return [1] + enc_lq(c['w']) + enc_lq(c['v']) + [len(c['ops'])] + sum((enc_op(o) for o in c['ops']), [])
+        out = [1] + enc_lq(c['w']) + enc_lq(c['v']) + [len(c['ops'])]
+        impl = None
+        for k, o in enumerate(c['ops']):
+            if o['k'] in ('setvalue', 'to'):
+                # the new values are whatever the assignment / conversion produced on the live object (the conversion
+                # formulas are C14's business): the model is told the values and must then agree on everything after
+                impl = impl or run_impl_cached(c)
+                if 'steps' not in impl:
+                    return None
+                out += [6] + C.enc_list([F(x) for x in impl['steps'][k]['v']], C.enc_q)
+            else:
+                out += enc_op(o)
+        return out
     sp = enc_lq(c['w']) + enc_lq(c['v'])
     if op == 'integrate':
         q = lambda x: C.enc_opt(None if x is None else F(x), C.enc_q)
@@ -476,7 +597,14 @@ def decode(c, ints):
     if op == 'seq':
         def outcome():
             e = rd.z()
-            return {'err': C.ERRNAMES[e] if e else None, 'w': rd.lst(rd.q), 'v': rd.lst(rd.q)}
+            st = {'err': C.ERRNAMES[e] if e else None, 'w': rd.lst(rd.q), 'v': rd.lst(rd.q)}
+            t = rd.z()
+            if t == 1:
+                st['ans'] = rd.q()
+            elif t == 2:
+                st['ans'] = rd.opt(lambda: rd.lst(rd.q))
+                st['bins'] = True
+            return st
         return {'steps': rd.lst(outcome)}
     if op == 'integrate':
         return {'I': rd.q()}
@@ -490,9 +618,30 @@ def decode(c, ints):
 
 
 # ------------------------------------------------------------------ implementation side
-def mk(w, v):
+def mk(w, v, vu=None, dtype=None):
     lentil = C.import_lentil()
-    return lentil.radiometry.Spectrum(arr(w), arr(v))
+    if dtype == 'int':
+        return lentil.radiometry.Spectrum(np.array([int(F(x)) for x in w]), np.array([int(F(x)) for x in v]), valueunit=vu)
+    return lentil.radiometry.Spectrum(arr(w), arr(v), valueunit=vu)
+
+
+def num(x, form):
+    """a bound in one of the argument forms a caller may use: float, numpy scalar, int when it is an integer"""
+    q = F(x)
+    if form == 1:
+        return np.float64(float(q))
+    if form == 2 and q.denominator == 1:
+        return int(q)
+    return float(q)
+
+
+def query(s, o):
+    if o['k'] == 'integrate':
+        f = o.get('form', 0)
+        return float(s.integrate(None if o['a'] is None else num(o['a'], f), None if o['b'] is None else num(o['b'], f),
+                                 method=o['rule']))
+    c = arr(o['c']) if o.get('form', 0) == 0 else fl(o['c'])
+    return [float(x) for x in s.bin(c, interp_method=o['rule'], ends=o['ends'], preserve_power=o['pp'])]
 
 
 def state(s):
@@ -514,7 +663,9 @@ def call_op(s, o):
             kw['mode'] = 'edge'
         elif m != 'default':
             kw['values'] = float(F(m[1])) if m[0] == 'scalar' else (float(F(m[1])), float(F(m[2])))
-        return s.pad([float(F(o['e0'])), float(F(o['e1']))], **kw)
+        ends = [float(F(o['e0'])), float(F(o['e1']))]
+        ends = tuple(ends) if o.get('form') == 1 else np.array(ends) if o.get('form') == 2 else ends
+        return s.pad(ends, **kw)
     if k == 'append':
         other = mk(o['w'], o['v'])
         if o.get('copy'):
@@ -522,31 +673,58 @@ def call_op(s, o):
         return s.append(other)
     if k == 'resample':
         return s.resample(arr(o['g']))
+    if k == 'setvalue':
+        if o['how'] == 'scale':
+            s.value = num(o['par'], 2) * s.value
+        elif o['how'] == 'shift':
+            s.value = s.value + num(o['par'], 2)
+        else:
+            s.value = s.value[::-1].copy()
+        return None
+    if k == 'to':
+        return s.to(o['unit'])
     raise ValueError(k)
 
 
 def run_impl(c):
+    return run_impl_cached(c)
+
+
+def run_impl_raw(c):
     op = c['op']
     with warnings.catch_warnings():
         warnings.simplefilter('ignore')
         try:
-            s = mk(c['w'], c['v'])
+            s = mk(c['w'], c['v'], c.get('vu'), c.get('dtype'))
         except Exception as e:
             return {'err': type(e).__name__}
         if op == 'seq':
+            lentil = C.import_lentil()
             steps = []
             for o in c['ops']:
-                err, ret = None, None
+                err, ret, ans, fresh = None, None, None, None
                 try:
-                    r = call_op(s, o)
-                    if o['k'] == 'append' and o.get('copy'):
-                        ret = state(r)
+                    if o['k'] in ('integrate', 'bin'):
+                        ans = query(s, o)
+                    else:
+                        r = call_op(s, o)
+                        if o['k'] == 'append' and o.get('copy'):
+                            ret = state(r)
                 except Exception as e:
                     err = type(e).__name__
                 st = state(s)
                 st['err'] = err
                 if ret is not None:
                     st['ret'] = ret
+                if o['k'] in ('integrate', 'bin'):
+                    # the same question put to a brand-new object holding the same wave and value
+                    try:
+                        f = lentil.radiometry.Spectrum(np.array(s.wave, dtype=float), np.array(s.value, dtype=float),
+                                                       valueunit=s.valueunit)
+                        fresh = query(f, o)
+                    except Exception as e:
+                        fresh = {'err': type(e).__name__}
+                    st['ans'], st['fresh'] = ans, fresh
                 steps.append(st)
             return {'steps': steps}
         if op == 'integrate':
@@ -629,29 +807,52 @@ def compare(c, impl, model):
     if op == 'seq':
         if len(impl['steps']) != len(model['steps']):
             return 'number of steps differs'
+        sync = True       # exact regime: the model's rationals are reproduced bit for bit by the float computation
         for k, (a, b) in enumerate(zip(impl['steps'], model['steps'])):
-            name = c['ops'][k]['k']
-            is_copy = name == 'append' and c['ops'][k].get('copy')
+            o = c['ops'][k]
+            name = o['k']
+            is_copy = name == 'append' and o.get('copy')
             if is_copy:
                 # the model's outcome is what the copy must look like; the object itself must not move
                 if (a['err'] or None) != b['err']:
                     return f'step {k} (append copy): exception {a["err"]} vs model {b["err"]}'
                 if a.get('ret') is not None:
-                    m = cmp_list(a['ret']['w'], b['w'], f'step {k} append(copy) wave') or \
-                        cmp_list(a['ret']['v'], b['v'], f'step {k} append(copy) value')
+                    m = cmp_list(a['ret']['w'], b['w'], f'step {k} append(copy) wave', sync) or \
+                        cmp_list(a['ret']['v'], b['v'], f'step {k} append(copy) value', sync)
                     if m:
                         return m
                 # the model state for the following steps must be the unchanged one: handled by the encoder
                 return 'internal: append(copy) must be the last call of a sequence' if k != len(impl['steps']) - 1 else None
+            pre = model['steps'][k - 1] if k else {'w': [F(x) for x in c['w']], 'v': [F(x) for x in c['v']]}
+            if not sync and name in ('crop', 'trim', 'pad', 'append', 'resample') and \
+                    ((a['err'] or None) != b['err'] or len(a['w']) != len(b['w']) or len(a['v']) != len(b['v'])):
+                return None   # outside the exact regime a rounding may flip a discrete decision: the oracle judges alone
             if (a['err'] or None) != b['err']:
                 return f'step {k} ({name}): exception {a["err"]} vs model {b["err"]}'
-            pre = model['steps'][k - 1] if k else {'w': [F(x) for x in c['w']], 'v': [F(x) for x in c['v']]}
-            ex = name != 'resample' or interp_exact(pre['w'], pre['v'])
+            ex = sync and (name != 'resample' or interp_exact(pre['w'], pre['v']))
             m = cmp_list(a['w'], b['w'], f'step {k} ({name}) wave', ex) or cmp_list(a['v'], b['v'], f'step {k} ({name}) value', ex)
             if m:
                 return m
-            if not ex or len(b['w']) != len(b['v']) or not all(exact_q(q) for q in b['w'] + b['v']):
-                return None       # ill-formed or outside the exact regime from here on: later calls are not compared
+            if name == 'integrate' and not a['err']:
+                q = b['ans']
+                if sync and o['rule'] == 'trapz' and exact_q(q):
+                    if F(a['ans']) != q:
+                        return f'step {k} (integrate on the current object): implementation {a["ans"]!r}, model {q}'
+                elif not close(a['ans'], q, 1e-11):
+                    return f'step {k} (integrate on the current object): implementation {a["ans"]!r}, model {float(q)!r}'
+            if name == 'bin' and not a['err']:
+                if b['ans'] is None:
+                    if all(math.isfinite(x) for x in a['ans']):
+                        return f'step {k} (bin): model: zero bin sum (non-finite result), implementation finite'
+                else:
+                    m = cmp_list(a['ans'], b['ans'], f'step {k} (bin on the current object)',
+                                 exact=(sync and o['rule'] == 'trapz' and not o['pp'] and interp_exact(pre['w'], pre['v'])))
+                    if m:
+                        return m
+            if len(b['w']) != len(b['v']):
+                return None       # ill-formed: later calls are not compared
+            if not ex or not all(exact_q(q) for q in b['w'] + b['v']):
+                sync = False      # still compared, to 1e-12, as long as the discrete decisions agree
         return None
     if op == 'integrate':
         q = model['I']
